@@ -80,6 +80,9 @@ pub enum Op {
     Addr(u64),
     Addrx(u64),
     Constx(u64),
+    /// DW_OP_GNU_addr_index / DW_OP_GNU_const_index (GNU DebugFission, DWARF 4 split units)
+    GnuAddrIndex(u64),
+    GnuConstIndex(u64),
     Reg(u8),
     Regx(u64),
     Breg(u8, i64),
@@ -194,6 +197,10 @@ pub enum UnitKind {
     Compile,
     Partial,
     Type { signature: u64, type_die: usize },
+    /// skeleton unit of a split compilation (DWARF 5 7.5.1.2: DW_UT_skeleton + dwo_id; GNU v4: ordinary header)
+    Skeleton { dwo_id: u64 },
+    /// split full compilation unit in a .dwo (DWARF 5: DW_UT_split_compile + dwo_id; GNU v4: ordinary header)
+    SplitCompile { dwo_id: u64 },
 }
 
 #[derive(Clone, Debug, PartialEq)]
@@ -230,6 +237,29 @@ pub struct Built {
     pub unit_off: Vec<usize>,
     pub unit_end: Vec<usize>,
     pub line_off: Vec<Option<usize>>,
+    /// section offset of every range list, per unit
+    pub range_off: Vec<Vec<u64>>,
+    /// value of the unit's DW_AT_addr_base / DW_AT_GNU_addr_base
+    pub addr_base: Vec<u64>,
+}
+
+/// Layout variations needed for split DWARF (everything false/empty = the ordinary layout).
+#[derive(Clone, Debug, Default)]
+pub struct Flavour {
+    /// the sections are those of a .dwo file: no .debug_addr / .debug_line; DWARF 5: the index
+    /// tables carry their header and the unit no *_base attribute (the base is implicitly right
+    /// after the header); GNU DWARF 4: .debug_str_offsets.dwo has no header, location lists use
+    /// the DW_LLE_GNU_* entry format in .debug_loc.dwo, range lists live in the main file
+    pub dwo: bool,
+    /// GNU DWARF 4 main file: .debug_addr has no header
+    pub addr_headerless: bool,
+    /// bytes of unrelated data in front of the unit's .debug_addr contribution
+    pub addr_pad: usize,
+    /// GNU DWARF 4 main file: DW_AT_GNU_ranges_base (AV::RnglistsBase) = offset of this range list of the unit
+    pub gnu_ranges_base_list: Option<usize>,
+    /// GNU DWARF 4 .dwo: value of DW_AT_ranges (DW_FORM_sec_offset) for range list i (relative to the
+    /// skeleton's DW_AT_GNU_ranges_base; the lists themselves are in the main file's .debug_ranges)
+    pub ext_range_off: Vec<u64>,
 }
 
 struct Tables {
@@ -322,6 +352,12 @@ fn op_bytes(cfg: Cfg, ops: &[Op], offs: &Offs, cur: usize) -> Vec<u8> {
             }
             Op::Constx(i) => {
                 e.u8(OP_CONSTX).uleb(*i);
+            }
+            Op::GnuAddrIndex(i) => {
+                e.u8(OP_GNU_ADDR_INDEX).uleb(*i);
+            }
+            Op::GnuConstIndex(i) => {
+                e.u8(OP_GNU_CONST_INDEX).uleb(*i);
             }
             Op::Reg(r) => {
                 e.u8(OP_REG0 + r);
@@ -501,6 +537,38 @@ fn enc_locs_v4(cfg: Cfg, l: &[Lle], offs: &Offs, cur: usize) -> Vec<u8> {
     e.buf
 }
 
+/// GNU DebugFission .debug_loc.dwo (https://gcc.gnu.org/wiki/DebugFission, "Location lists"):
+/// every entry starts with a one-byte kind; start_end: two ULEB128 .debug_addr indices;
+/// start_length: a ULEB128 index and a 4-byte length; base_address_selection: a ULEB128 index;
+/// a location entry is followed by a 2-byte expression length and the expression.
+/// (DW_LLE_GNU_offset_pair_entry is not generated: GCC never emits it and consumers disagree
+/// about its operand encoding.)
+fn enc_locs_gnu_dwo(cfg: Cfg, l: &[Lle], offs: &Offs, cur: usize) -> Vec<u8> {
+    let mut e = Enc::new(cfg.big);
+    let ex = |e: &mut Enc, ops: &[Op]| {
+        let x = op_bytes(cfg, ops, offs, cur);
+        e.u16(x.len() as u16).bytes(&x);
+    };
+    for r in l {
+        match r {
+            Lle::BaseAddressx(i) => {
+                e.u8(LLE_GNU_BASE_ADDRESS_SELECTION).uleb(*i);
+            }
+            Lle::StartxEndx(a, b, o) => {
+                e.u8(LLE_GNU_START_END).uleb(*a).uleb(*b);
+                ex(&mut e, o);
+            }
+            Lle::StartxLength(a, l, o) => {
+                e.u8(LLE_GNU_START_LENGTH).uleb(*a).u32(*l as u32);
+                ex(&mut e, o);
+            }
+            _ => panic!("location entry kind not available in GNU .debug_loc.dwo"),
+        }
+    }
+    e.u8(LLE_GNU_END_OF_LIST);
+    e.buf
+}
+
 fn enc_locs_v5(cfg: Cfg, l: &[Lle], offs: &Offs, cur: usize) -> Vec<u8> {
     let mut e = Enc::new(cfg.big);
     let ex = |e: &mut Enc, ops: &[Op]| {
@@ -586,7 +654,7 @@ fn emit_av(e: &mut Enc, av: &AV, cfg: Cfg, t: &mut Tables, ctx: &UnitCtx, offs: 
         FORM_DATA8 | FORM_REF8 | FORM_REF_SUP8 => {
             e.u64(v);
         }
-        FORM_UDATA | FORM_REF_UDATA | FORM_STRX | FORM_ADDRX | FORM_LOCLISTX | FORM_RNGLISTX => {
+        FORM_UDATA | FORM_REF_UDATA | FORM_STRX | FORM_ADDRX | FORM_LOCLISTX | FORM_RNGLISTX | FORM_GNU_STR_INDEX | FORM_GNU_ADDR_INDEX => {
             e.uleb(v);
         }
         FORM_SEC_OFFSET | FORM_STRP | FORM_LINE_STRP | FORM_STRP_SUP => {
@@ -703,10 +771,10 @@ fn with_len(cfg: Cfg, body: &Enc) -> Vec<u8> {
     e.buf
 }
 
-fn build_once(m: &Model, guess: &Built) -> Built {
+fn build_once(m: &Model, guess: &Built, fl: &Flavour) -> Built {
     let cfg = m.cfg;
     let offs = Offs { die_off: &guess.die_off, unit_off: &guess.unit_off };
-    let mut t = Tables { str_: b"pad\0".to_vec(), line_str: b"lpad\0".to_vec(), str_offsets: vec![], addr: vec![], ranges: vec![], rnglists: vec![], loc: vec![], loclists: vec![], line: vec![] };
+    let mut t = Tables { str_: b"pad\0".to_vec(), line_str: b"lpad\0".to_vec(), str_offsets: vec![], addr: vec![0xa5; fl.addr_pad], ranges: vec![], rnglists: vec![], loc: vec![], loclists: vec![], line: vec![] };
     let mut info: Vec<u8> = vec![];
     let mut abbrev: Vec<u8> = vec![];
     let mut out = Built::default();
@@ -716,23 +784,41 @@ fn build_once(m: &Model, guess: &Built) -> Built {
         if !u.strs.is_empty() {
             // DWARF 5 7.26: unit_length, version(2), padding(2), offsets
             let mut body = Enc::new(cfg.big);
-            body.u16(5).u16(0);
+            let headerless = fl.dwo && cfg.version < 5;
+            if !headerless {
+                body.u16(5).u16(0);
+            }
             for s in &u.strs {
                 let o = pool_add(&mut t.str_, s);
                 body.offset(o, cfg.fmt64);
             }
-            ctx.str_offsets_base = (t.str_offsets.len() + if cfg.fmt64 { 12 } else { 4 } + 4) as u64;
-            t.str_offsets.extend(with_len(cfg, &body));
+            if headerless {
+                // GNU DebugFission: .debug_str_offsets.dwo is a bare array of offsets
+                ctx.str_offsets_base = t.str_offsets.len() as u64;
+                t.str_offsets.extend(&body.buf);
+            } else {
+                ctx.str_offsets_base = (t.str_offsets.len() + if cfg.fmt64 { 12 } else { 4 } + 4) as u64;
+                t.str_offsets.extend(with_len(cfg, &body));
+            }
         }
         if !u.addrs.is_empty() {
             // DWARF 5 7.27: unit_length, version(2), address_size, segment_selector_size, addresses
+            assert!(!fl.dwo, "a .dwo file has no .debug_addr");
             let mut body = Enc::new(cfg.big);
-            body.u16(5).u8(cfg.asz).u8(0);
+            if !fl.addr_headerless {
+                body.u16(5).u8(cfg.asz).u8(0);
+            }
             for a in &u.addrs {
                 body.addr(*a, cfg.asz);
             }
-            ctx.addr_base = (t.addr.len() + if cfg.fmt64 { 12 } else { 4 } + 4) as u64;
-            t.addr.extend(with_len(cfg, &body));
+            if fl.addr_headerless {
+                // GNU DebugFission: .debug_addr is a bare array of addresses
+                ctx.addr_base = t.addr.len() as u64;
+                t.addr.extend(&body.buf);
+            } else {
+                ctx.addr_base = (t.addr.len() + if cfg.fmt64 { 12 } else { 4 } + 4) as u64;
+                t.addr.extend(with_len(cfg, &body));
+            }
         }
         if !u.rnglists.is_empty() {
             if cfg.version >= 5 {
@@ -755,10 +841,17 @@ fn build_once(m: &Model, guess: &Built) -> Built {
                 ctx.rnglists_base = base as u64;
                 ctx.range_off = rels.iter().map(|r| (base + r) as u64).collect();
                 t.rnglists.extend(with_len(cfg, &body));
+            } else if fl.dwo {
+                // GNU DebugFission: the lists are in the main file
+                assert!(fl.ext_range_off.len() == u.rnglists.len());
+                ctx.range_off = fl.ext_range_off.clone();
             } else {
                 for l in &u.rnglists {
                     ctx.range_off.push(t.ranges.len() as u64);
                     t.ranges.extend(enc_ranges_v4(cfg, l));
+                }
+                if let Some(i) = fl.gnu_ranges_base_list {
+                    ctx.rnglists_base = ctx.range_off[i];
                 }
             }
         }
@@ -785,16 +878,19 @@ fn build_once(m: &Model, guess: &Built) -> Built {
             } else {
                 for l in &u.loclists {
                     ctx.loc_off.push(t.loc.len() as u64);
-                    t.loc.extend(enc_locs_v4(cfg, l, &offs, ui));
+                    t.loc.extend(if fl.dwo { enc_locs_gnu_dwo(cfg, l, &offs, ui) } else { enc_locs_v4(cfg, l, &offs, ui) });
                 }
             }
         }
         if let Some(lp) = &u.line {
+            assert!(!fl.dwo, "the generator puts the line program into the main file");
             ctx.line_off = Some(t.line.len() as u64);
             let b = enc_line(cfg, lp, &mut t.line_str, &mut t.str_);
             t.line.extend(b);
         }
         out.line_off.push(ctx.line_off.map(|x| x as usize));
+        out.range_off.push(ctx.range_off.clone());
+        out.addr_base.push(ctx.addr_base);
 
         // ---- abbreviations: one per die, code = index + 1
         let abbrev_off = abbrev.len();
@@ -830,8 +926,14 @@ fn build_once(m: &Model, guess: &Built) -> Built {
                 UnitKind::Compile => UT_COMPILE,
                 UnitKind::Partial => UT_PARTIAL,
                 UnitKind::Type { .. } => UT_TYPE,
+                UnitKind::Skeleton { .. } => UT_SKELETON,
+                UnitKind::SplitCompile { .. } => UT_SPLIT_COMPILE,
             };
             body.u8(ut).u8(cfg.asz).offset(abbrev_off as u64, cfg.fmt64);
+            if let UnitKind::Skeleton { dwo_id } | UnitKind::SplitCompile { dwo_id } = u.kind {
+                // DWARF 5 7.5.1.2: unit_length, version, unit_type, address_size, debug_abbrev_offset, dwo_id (8 bytes)
+                body.u64(dwo_id);
+            }
             if let UnitKind::Type { signature, type_die } = u.kind {
                 body.u64(signature).offset(offs.rel(T::Die(ui, type_die), ui), cfg.fmt64);
             }
@@ -875,9 +977,13 @@ fn build_once(m: &Model, guess: &Built) -> Built {
 /// Encode the model; die offsets are found by iterating to a fixed point
 /// (reference operands of variable width can move later entries).
 pub fn build(m: &Model) -> Built {
+    build_with(m, &Flavour::default())
+}
+
+pub fn build_with(m: &Model, fl: &Flavour) -> Built {
     let mut cur = Built::default();
     for _ in 0..8 {
-        let next = build_once(m, &cur);
+        let next = build_once(m, &cur, fl);
         if next.die_off == cur.die_off && next.unit_off == cur.unit_off {
             return next;
         }
@@ -1366,4 +1472,125 @@ pub fn build_frame(m: &FrameM) -> Vec<u8> {
         }
     }
     sec
+}
+
+// ---------------------------------------------------------------------------
+// Split DWARF (DWARF 5 sections 3.1.2, 3.1.3, 7.3.2, 7.5.1.2, appendix F; GNU DebugFission
+// for DWARF 4)
+
+/// One split compilation: a skeleton unit in the main file and the split full unit in a .dwo.
+#[derive(Clone, Debug, PartialEq)]
+pub struct SplitM {
+    pub cfg: Cfg,
+    pub dwo_id: u64,
+    /// The split full unit (`kind` is ignored). Its tables are distributed as a producer does:
+    /// `strs` -> .debug_str_offsets.dwo + .debug_str.dwo (DW_FORM_strx* / DW_FORM_GNU_str_index),
+    /// `addrs` -> the MAIN file's .debug_addr at the skeleton's DW_AT_addr_base / DW_AT_GNU_addr_base
+    /// (DW_FORM_addrx* / DW_FORM_GNU_addr_index, DW_OP_addrx / DW_OP_GNU_addr_index, *x list entries),
+    /// `rnglists` -> DWARF 5: .debug_rnglists.dwo; GNU 4: the MAIN file's .debug_ranges, DW_AT_ranges
+    /// being relative to the skeleton's DW_AT_GNU_ranges_base,
+    /// `loclists` -> DWARF 5: .debug_loclists.dwo; GNU 4: .debug_loc.dwo in DW_LLE_GNU_* format,
+    /// `line` -> the MAIN file's .debug_line, referenced by the skeleton's DW_AT_stmt_list.
+    pub unit: UnitM,
+    /// further attributes of the skeleton root (DW_AT_low_pc, DW_AT_high_pc, DW_AT_ranges ...)
+    pub skel_attrs: Vec<Attr>,
+    /// range lists of the skeleton itself (for a DW_AT_ranges in `skel_attrs`; the AV::Ranges index
+    /// counts these lists only)
+    pub skel_rnglists: Vec<Vec<Rle>>,
+}
+
+#[derive(Clone, Debug, Default)]
+pub struct SplitBuilt {
+    /// main file sections under their ordinary names
+    pub main: Secs,
+    /// .dwo sections under their `.dwo` names
+    pub dwo: Secs,
+    /// offset of every entry of the split unit in .debug_info.dwo
+    pub die_off: Vec<usize>,
+}
+
+pub fn render_split(b: &SplitBuilt) -> String {
+    format!("MAIN {}DWO {}", render_secs(&b.main), render_secs(&b.dwo))
+}
+
+pub fn build_split(m: &SplitM) -> SplitBuilt {
+    let cfg = m.cfg;
+    let v5 = cfg.version >= 5;
+    assert!(cfg.version >= 4, "split DWARF exists for DWARF 5 and as a GNU extension of DWARF 4");
+    // ---- main file: the skeleton unit
+    let mut sk = UnitM::new(if v5 { TAG_SKELETON_UNIT } else { TAG_COMPILE_UNIT });
+    sk.kind = UnitKind::Skeleton { dwo_id: m.dwo_id };
+    sk.addrs = m.unit.addrs.clone();
+    sk.line = m.unit.line.clone();
+    // GNU 4: an unrelated list first, so that DW_AT_GNU_ranges_base is not 0
+    let npad = if !v5 && !m.unit.rnglists.is_empty() { 1 } else { 0 };
+    let nskel = npad + m.skel_rnglists.len();
+    sk.rnglists = vec![vec![Rle::Pair(0x7000, 0x7004)]; npad];
+    sk.rnglists.extend(m.skel_rnglists.iter().cloned());
+    let mut fl_main = Flavour { addr_headerless: !v5, addr_pad: if v5 { 0 } else { 3 * cfg.asz as usize }, ..Flavour::default() };
+    if !v5 && !m.unit.rnglists.is_empty() {
+        // GNU 4: the split unit's range lists live in the main file behind the skeleton's own
+        sk.rnglists.extend(m.unit.rnglists.iter().cloned());
+        fl_main.gnu_ranges_base_list = Some(nskel);
+    }
+    {
+        let a = &mut sk.dies[0].attrs;
+        a.push(at(if v5 { AT_DWO_NAME } else { AT_GNU_DWO_NAME }, AV::Str(FORM_STRP, b"a.dwo".to_vec())));
+        a.push(at(AT_COMP_DIR, AV::Str(if v5 { FORM_LINE_STRP } else { FORM_STRING }, b"/cwd".to_vec())));
+        if !v5 {
+            a.push(at(AT_GNU_DWO_ID, AV::Data(FORM_DATA8, m.dwo_id)));
+        }
+        if !sk.addrs.is_empty() {
+            a.push(at(if v5 { AT_ADDR_BASE } else { AT_GNU_ADDR_BASE }, AV::AddrBase));
+        }
+        if fl_main.gnu_ranges_base_list.is_some() {
+            a.push(at(AT_GNU_RANGES_BASE, AV::RnglistsBase));
+        }
+        if v5 && nskel > 0 && m.skel_attrs.iter().any(|x| matches!(x.val, AV::Ranges(FORM_RNGLISTX, _))) {
+            a.push(at(AT_RNGLISTS_BASE, AV::RnglistsBase));
+        }
+        if sk.line.is_some() {
+            a.push(at(AT_STMT_LIST, AV::StmtList(FORM_SEC_OFFSET)));
+        }
+        for x in &m.skel_attrs {
+            a.push(match &x.val {
+                AV::Ranges(f, i) => at(x.name, AV::Ranges(*f, i + npad)),
+                _ => x.clone(),
+            });
+        }
+    }
+    let main = build_with(&Model { cfg, units: vec![sk] }, &fl_main);
+    // ---- .dwo file: the split full unit
+    let mut su = m.unit.clone();
+    su.kind = UnitKind::SplitCompile { dwo_id: m.dwo_id };
+    su.addrs = vec![];
+    su.line = None;
+    let mut fl_dwo = Flavour { dwo: true, ..Flavour::default() };
+    if !v5 {
+        let base = main.range_off[0].get(nskel).cloned().unwrap_or(0);
+        fl_dwo.ext_range_off = main.range_off[0][nskel..].iter().map(|o| o - base).collect();
+        if !su.dies[0].attrs.iter().any(|a| a.name == AT_GNU_DWO_ID) {
+            su.dies[0].attrs.push(at(AT_GNU_DWO_ID, AV::Data(FORM_DATA8, m.dwo_id)));
+        }
+    }
+    let dwo = build_with(&Model { cfg, units: vec![su] }, &fl_dwo);
+    let mut out = SplitBuilt { main: main.secs, dwo: Secs::new(), die_off: dwo.die_off[0].clone() };
+    for (k, v) in dwo.secs {
+        let name: &'static str = match k {
+            ".debug_info" => ".debug_info.dwo",
+            ".debug_abbrev" => ".debug_abbrev.dwo",
+            ".debug_str" => ".debug_str.dwo",
+            ".debug_str_offsets" => ".debug_str_offsets.dwo",
+            ".debug_rnglists" => ".debug_rnglists.dwo",
+            ".debug_loclists" => ".debug_loclists.dwo",
+            ".debug_loc" => ".debug_loc.dwo",
+            // a .dwo has no .debug_addr, .debug_ranges, .debug_line, .debug_line_str
+            _ => {
+                assert!(v.is_empty() || k == ".debug_line_str", "generator: .dwo build produced {}", k);
+                continue;
+            }
+        };
+        out.dwo.insert(name, v);
+    }
+    out
 }
